@@ -257,9 +257,9 @@ def c11(tier, seed):
     reps = tier_n(tier, 7, 40); nseeds = tier_n(tier, 1, 4)
     cases = []; idx = 0
     for v in variants:
-        for w in range(7):
+        for w in range(8):
             # workload 5: storms of threads terminating together; workload 6: 72 segments live at once in one 4 GiB arena (every block of a bitmap word is used)
-            for cfg in (configs if w < 5 else [{}, {}, {"MIMALLOC_DISALLOW_ARENA_ALLOC": "1"}] if w == 5 else [{"MIMALLOC_ARENA_RESERVE": "4GiB"}, {"MIMALLOC_ARENA_RESERVE": "4GiB", "MIMALLOC_PURGE_DELAY": "0"}]):
+            for cfg in (configs if w < 5 else [{}, {}, {"MIMALLOC_DISALLOW_ARENA_ALLOC": "1"}] if w == 5 else [{"MIMALLOC_ARENA_RESERVE": "4GiB"}, {"MIMALLOC_ARENA_RESERVE": "4GiB", "MIMALLOC_PURGE_DELAY": "0"}] if w == 6 else [{}]):   # workload 7: reservations beyond the arena table
                 for k in range(nseeds):
                     s = case_seed(seed, prop, idx); idx += 1
                     cases.append(_drv_case(prop, "C11-w%d-%s-%s-%d" % (w, envname(cfg), v, s), v, ["--profile", "ledger", "--seed", s, "--workload", w, "--reps", reps], env=cfg,
